@@ -128,6 +128,17 @@ pub fn run(arg: &str) -> String {
             let tcf_ok = tcf == Some(vec![enc]);
             format!("inst={} value_ok={} tcf_ok={} sat={}", ninst, inst_ok, tcf_ok, cs.is_satisfied().unwrap())
         }
+        "pubinput_aff" => {
+            let i: usize = parts[1].parse().unwrap();
+            let es = elems(); let e = es[i % es.len()];
+            let cs = new_cs(false);
+            let a = e.into_affine();
+            let r = <ElementVar as AllocVar<<Element as CurveGroup>::Affine, Fq>>::new_input(cs.clone(), || Ok(a));
+            let enc = e.vartime_compress_to_field();
+            let ninst = cs.num_instance_variables();
+            let inst_ok = { let c = cs.borrow().unwrap(); c.instance_assignment.len() == 2 && c.instance_assignment[1] == enc };
+            format!("ok={} inst={} value_ok={} sat={}", r.is_ok(), ninst, inst_ok, cs.is_satisfied().unwrap())
+        }
         _ => panic!("HARNESS unknown shape command {}", arg),
     }
 }
